@@ -190,6 +190,30 @@ CHECKS["C16"] = dict(
                "TLC; fault injection at every recorded write call; file "
                "dumps validated by TLC (ContainerTrace.tla)"))
 
+CHECKS["C18"] = dict(
+    engine="Registry", category="model_checking",
+    text=("Registry.tla (registry as a key->module relation, sys.path and "
+          "the bytecode flag as state; Register / Deregister / LoadFile) is "
+          "model-checked over all histories of <= 4 calls for every module "
+          "(3 sound, 1 sound-with-warning, 20 single-fault mutants of a "
+          "valid module) and file (valid, valid in a directory already on "
+          "sys.path, with ancillaries, faulty model, syntax error, import "
+          "error, missing, same file name in another directory). The same "
+          "alphabet is executed on the REAL registry (all single calls x 4 "
+          "initial conditions, all pairs over an interesting subset, "
+          "sampled triples/quadruples) with snapshot/restore; TLC validates "
+          "every recorded call: faulty => model error and registry "
+          "unchanged, sound => registered under its key with default "
+          "wrappers / names / units / ancillary keys, deregister removes "
+          "exactly that key, unimportable => ModelImportError, file model "
+          "behaves like the shipped code, sys.path and the bytecode flag "
+          "restored whatever the outcome; plus all 27 ancillary "
+          "dictionaries over {absent, NaN, value}^3 for the seeding rule."),
+    design_ref="5 (C18), 3.3", note=TB,
+    technique=("TLA+ registry design model-checked by TLC; all single-fault "
+               "mutants and call histories executed on the real registry "
+               "and validated by TLC (RegistryTrace.tla)"))
+
 NOT_APPLICABLE = {
     "C01": ("Recovery of ground-truth parameters to optimiser precision is "
             "numerical convergence of lmfit/MINPACK on real-valued data; it "
